@@ -29,12 +29,14 @@ def classify(w):
     return w.get('mechanism_hint')
 
 
-def mk_history(rng, T, served):
+def mk_history(rng, T, served, fresh=None):
     """One client generation (symbolic; sids are ['sid', T, ns])."""
     ops = [['open', T]]
     nss = [ns for ns in served if rng.random() < 0.7] or [served[0]]
     if rng.random() < 0.2:
         nss.append('/unserved')
+    if fresh:
+        nss.append(fresh)
     for ns in nss:
         ops.append(['connect', T, ns, rng.choice([None, {'k': 1}])])
     tok = [T * 1000]
@@ -122,6 +124,17 @@ class Case:
             always_connect=rng.random() < 0.3,
             coroutines=rng.random() < 0.7,
             connect_script={}, faults=[])
+        if kind == 'async' and self.cfg['coroutines'] and \
+                rng.random() < 0.3:
+            # faults in disconnect handlers are cancellations
+            self.cfg['fault_exc'] = 'cancelled'
+            ctx.count('cases_with_cancelled_disconnect_handlers')
+        # a fifth of the servers accept any namespace a client names; every
+        # client generation then also uses a namespace of its own
+        self.accept_all = rng.random() < 0.2
+        if self.accept_all:
+            self.cfg['namespaces_opt'] = '*'
+            ctx.count('cases_with_a_fresh_namespace_per_generation')
         self.refuse_p = rng.choice([0, 0.2])
         # a quarter of the cases run on a message-queue manager (one host of
         # a cluster): the bookkeeping for local clients must be just as clean
@@ -341,7 +354,9 @@ class Case:
         self.r = scratch
         self.nT += 1
         hist_T = self.nT
-        ops, nss, end = mk_history(rng, hist_T, self.served)
+        ops, nss, end = mk_history(rng, hist_T, self.served,
+                                   '/gen-%d' % hist_T if self.accept_all
+                                   else None)
         st = rng.getstate()
         _, K, _ = self.run_generation(ops, None, [])
         rng.setstate(st)
@@ -880,6 +895,8 @@ def renumber(ops, old, new):
             return new
         if isinstance(x, str) and x == 'gen%d' % old:
             return 'gen%d' % new
+        if isinstance(x, str) and x == '/gen-%d' % old:
+            return '/gen-%d' % new
         return x
     out = []
     for op in ops:
@@ -946,6 +963,8 @@ def run(ctx):
     ctx.require('fault_in_disconnect_handler', 3)
     ctx.require('fault_in_connect_handler', 3)
     ctx.require('fault_in_event_handler', 3)
+    ctx.require('cases_with_cancelled_disconnect_handlers', 3)
+    ctx.require('cases_with_a_fresh_namespace_per_generation', 3)
     # threaded server: one client ended by two or three parties at the same
     # time (the controlled scheduler and scenarios of C20): once they have
     # all finished, the server is back at its baseline
